@@ -268,12 +268,94 @@ func c20TraversalParsers(c *core.Case) {
 	}
 }
 
+// c20ViewsDescribe: whatever static list / map view an expression offers must
+// describe the value the expression evaluates to (a list view: a tuple of that
+// many elements; a map view: an object with exactly those attributes).
+func c20ViewsDescribe(c *core.Case, e hcl.Expression, src string, whole cty.Value, wd hcl.Diagnostics, ctx *hcl.EvalContext) bool {
+	if wd.HasErrors() || !whole.IsKnown() {
+		return true
+	}
+	uw := unmarked(whole)
+	if parts, d := hcl.ExprList(e); !d.HasErrors() {
+		if !uw.Type().IsTupleType() || uw.LengthInt() != len(parts) {
+			c.Violation("parts/list-view-of-a-non-list", fmt.Sprintf("%s: ExprList offers %d elements but the expression evaluates to %s", trunc(src, 300), len(parts), valStr(whole)), nil)
+			return false
+		}
+		c.Count("parts:list-view-describes-value")
+	} else {
+		c.Count("parts:no-list-view")
+	}
+	if pairs, d := hcl.ExprMap(e); !d.HasErrors() {
+		// (the native object constructor lets a later pair replace an earlier one with the same key)
+		if !uw.Type().IsObjectType() || len(uw.Type().AttributeTypes()) > len(pairs) || (len(pairs) > 0 && len(uw.Type().AttributeTypes()) == 0) {
+			c.Violation("parts/map-view-of-a-non-map", fmt.Sprintf("%s: ExprMap offers %d pairs but the expression evaluates to %s", trunc(src, 300), len(pairs), valStr(whole)), nil)
+			return false
+		}
+		for i, kv := range pairs {
+			kval, kd := kv.Key.Value(ctx)
+			if kd.HasErrors() || !kval.IsKnown() || kval.IsNull() {
+				continue
+			}
+			ks, err := convert.Convert(unmarked(kval), cty.String)
+			if err != nil || !uw.Type().HasAttribute(ks.AsString()) {
+				c.Violation("parts/map-view-of-a-non-map", fmt.Sprintf("%s: static key %d evaluates to %s, which is not an attribute of the whole %s", trunc(src, 300), i, valStr(kval), valStr(whole)), nil)
+				return false
+			}
+		}
+		c.Count("parts:map-view-describes-value")
+	} else {
+		c.Count("parts:no-map-view")
+	}
+	return true
+}
+
+// c20AnyExpr: arbitrary expressions (not only constructors) in both syntaxes.
+func c20AnyExpr(c *core.Case, g *gen.G, sc *gen.Scope) {
+	r := c.Rng
+	var e hcl.Expression
+	var src string
+	if gen.Chance(r, 0.5) {
+		src = gen.RandomJSON(r, 3)
+		if hugeExp.MatchString(src) {
+			return
+		}
+		je, d := hcljson.ParseExpression([]byte(src), "p.json")
+		if d.HasErrors() {
+			return
+		}
+		e = je
+		c.Count("parts:any-json-value")
+	} else {
+		ast := g.Expr(gen.WAny, 3)
+		gen.FixTemplates(ast)
+		gen.FixDollar(ast)
+		src = gen.RenderExpr(ast, gen.RandomLayout(r))
+		he, d := hclsyntax.ParseExpression([]byte(src), "p.hcl", hcl.InitialPos)
+		if d.HasErrors() {
+			return
+		}
+		e = he
+		c.Count("parts:any-native-expression")
+	}
+	c.SetInput(src + "\nSCOPE: " + scopeStr(sc))
+	ctx := evalCtx(sc)
+	whole, wd := e.Value(ctx)
+	c.Evals(1)
+	if c20ViewsDescribe(c, e, src, whole, wd, ctx) && !wd.HasErrors() {
+		c.NonTrivial("parts-any:" + src)
+	}
+}
+
 func c20Parts(c *core.Case) {
 	r := c.Rng
 	sc := gen.NewScope(r, gen.ValOpts{StrLevel: 1})
 	g := gen.NewG(r, sc, 0.05)
 	g.StrLevel = 1
 	g.NoHostileKeys = true
+	if c.Index%16 == 2 {
+		c20AnyExpr(c, g, sc)
+		return
+	}
 	var ast *gen.Node
 	kind := r.Intn(3)
 	switch kind {
@@ -363,6 +445,9 @@ func c20Parts(c *core.Case) {
 	ctx := evalCtx(sc)
 	whole, wd := e.Value(ctx)
 	c.Evals(1)
+	if !c20ViewsDescribe(c, e, src, whole, wd, ctx) {
+		return
+	}
 	switch kind {
 	case 0:
 		parts, d := hcl.ExprList(e)
@@ -493,7 +578,9 @@ func c20Parts(c *core.Case) {
 
 // ---------------------------------------------------------------- types
 
-var c20AttrNames = []string{"a", "b", "id", "name", "for", "in", "if", "else", "endif", "endfor", "null", "true", "false", "x9", "a-b", "_u", "é", "any", "string", "list", "object", "optional"}
+var c20AttrNames = []string{"a", "b", "id", "name", "for", "in", "if", "else", "endif", "endfor", "null", "true", "false", "x9", "a-b", "_u", "é", "any", "string", "list", "object", "optional",
+	// identifiers beyond letters and digits: combining marks, connector punctuation, letter numbers
+	"नाम", "ชื่อ", "snake‿case", "ⅷ", "a·b", "x͜y"}
 
 func c20Type(r *rand.Rand, depth int) cty.Type {
 	k := r.Intn(10)
